@@ -80,17 +80,26 @@ def query_fingerprint(nl):
     import spydrnet as sdn
 
     out = []
+    IDK = "EDIF.identifier"
+
+    def by_id(tag, where, parent, x, fn):
+        v = x.data.get(IDK)
+        if isinstance(v, str) and v and "*" not in v and "?" not in v:
+            out.append((tag + "-id",) + where + (len(list(fn(parent, v, key=IDK))),))
     for li, L in enumerate(nl.libraries):
         if L.name is not None:
             out.append(("lib", li, len(list(sdn.get_libraries(nl, L.name)))))
+        by_id("lib", (li,), nl, L, sdn.get_libraries)
         for di, D in enumerate(L.definitions):
             if D.name is not None:
                 out.append(("def", li, di, len(list(sdn.get_definitions(L, D.name)))))
+            by_id("def", (li, di), L, D, sdn.get_definitions)
             for tag, lst, fn in (("port", D.ports, sdn.get_ports), ("cable", D.cables, sdn.get_cables),
                                  ("inst", D.children, sdn.get_instances)):
                 for xi, x in enumerate(lst):
                     if x.name is not None and "[" not in x.name and "*" not in x.name:
                         out.append((tag, li, di, xi, len(list(fn(D, x.name)))))
+                    by_id(tag, (li, di, xi), D, x, fn)
     if nl.top_instance is not None and hasattr(nl.top_instance, "reference") \
             and nl.top_instance.reference is not None:
         for fn in (sdn.get_hinstances, sdn.get_hwires, sdn.get_hports):
